@@ -99,7 +99,7 @@ func runC17(c *Ctx) {
 		rs := u.Match(an.M{}.Range())
 		okr := false
 		for _, s := range rs {
-			if u.C.Term(s.Rng.X) == "p4" && identName(s.Rng.Key) == "i" && identName(s.Rng.Value) == "n" {
+			if u.C.Term(s.Rng.X) == "p4" && localName(u, s.Rng.Key) == "i" && localName(u, s.Rng.Value) == "n" {
 				okr = true
 			}
 		}
@@ -290,7 +290,7 @@ func runC17(c *Ctx) {
 			case "nleader.name", "nreplica.name":
 				fol := false
 				for _, d := range u.Sites {
-					if d.Kind == flow.SStore && d.Block == s.Block && s.SameBlockBefore(d) && d.RHS != nil && identName(d.LHS) == "exclude" && u.C.Term(d.RHS) == "append(exclude, nlist[j])" {
+					if d.Kind == flow.SStore && d.Block == s.Block && s.SameBlockBefore(d) && d.RHS != nil && localName(u, d.LHS) == "exclude" && u.C.Term(d.RHS) == "append(exclude, nlist[j])" {
 						fol = true
 					}
 				}
@@ -315,7 +315,7 @@ func runC17(c *Ctx) {
 					continue
 				}
 				ix, ok := ast.Unparen(s.LHS).(*ast.IndexExpr)
-				if !ok || identName(ix.X) != f {
+				if !ok || localName(u, ix.X) != f {
 					continue
 				}
 				k := u.C.Term(ix.Index)
@@ -358,7 +358,7 @@ func runC17(c *Ctx) {
 			}
 			inner := false
 			for _, s := range u.Match(an.M{}.Range()) {
-				if u.C.Term(s.Rng.X) == exIdx && identName(s.Rng.Value) == "ex" {
+				if u.C.Term(s.Rng.X) == exIdx && localName(u, s.Rng.Value) == "ex" {
 					inner = true
 				}
 			}
@@ -390,13 +390,13 @@ func runC17(c *Ctx) {
 				if d.Kind != flow.SStore || d.Block != s.Block {
 					continue
 				}
-				if identName(d.LHS) == "tmp" && d.SameBlockBefore(s) && d.RHS != nil {
-					if ix, ok := ast.Unparen(d.RHS).(*ast.IndexExpr); ok && identName(ix.X) == "nlist" && u.C.Term(ix.Index) == "0" {
+				if localName(u, d.LHS) == "tmp" && d.SameBlockBefore(s) && d.RHS != nil {
+					if ix, ok := ast.Unparen(d.RHS).(*ast.IndexExpr); ok && localName(u, ix.X) == "nlist" && u.C.Term(ix.Index) == "0" {
 						saved = true
 					}
 				}
-				if s.SameBlockBefore(d) && identName(d.RHS) == "tmp" {
-					if ix, ok := ast.Unparen(d.LHS).(*ast.IndexExpr); ok && identName(ix.X) == "nlist" && identName(ix.Index) == "index" {
+				if s.SameBlockBefore(d) && localName(u, d.RHS) == "tmp" {
+					if ix, ok := ast.Unparen(d.LHS).(*ast.IndexExpr); ok && localName(u, ix.X) == "nlist" && localName(u, ix.Index) == "index" {
 						back = true
 					}
 				}
@@ -413,6 +413,20 @@ func runC17(c *Ctx) {
 		ok := len(st) == 1 && u.C.Term(st[0].RHS) == "p2" && flow.Implies(u.SitePC(st[0]), c.W.Parse("p0[i] == p1")).Holds
 		r.Check("C17-D5", u.Name+": exactly the slot holding the old node is overwritten", "", ok, "")
 	}
+}
+
+// localName is identName in the rule vocabulary: a renamed local recognised by its signature keeps its old name.
+func localName(u *an.Unit, e ast.Expr) string {
+	if e == nil {
+		return ""
+	}
+	if id, ok := ast.Unparen(e).(*ast.Ident); ok {
+		if b := u.C.BaseName(u.Info().ObjectOf(id)); b != "" {
+			return b
+		}
+		return id.Name
+	}
+	return ""
 }
 
 func identName(e ast.Expr) string {
